@@ -130,7 +130,7 @@ func TestC35(t *testing.T) {
 		ID:         "C35",
 		Level:      "exploration",
 		Exhaustive: true,
-		Rule: "complete enumeration (both tiers identical): case 0 validates the oracle (CRC16-XMODEM(\"123456789\")=0x31C3, CLUSTER KEYSLOT vectors) and checks FindTags(n) for every n in -1..16385 against PrecomputedSizes(); " +
+		Rule: "complete enumeration (both tiers identical): case 0 validates the oracle (CRC16-XMODEM(\"123456789\")=0x31C3, CLUSTER KEYSLOT vectors) and checks FindTags(n) for every n in -1..16385 against PrecomputedSizes(), and that a table a caller holds is not changed by later lookups of other sizes (descending, ascending, interleaved); " +
 			"for every precomputed partition count n (16..4096) and every cluster size k in 1..n (split in chunks of 256 values of k per case): every tag's slot by the independent table-driven CRC16 equals redispartition.TagSlot and equals the slot of the real key shape \"<prefix>.client.{tag}.<channel>\" under the Redis hash-tag rule (tag non-empty, no '{' '}' '.'), " +
 			"tags and slots pairwise distinct, len(tags)=n, redispartition.SlotToNode equals the independently built contiguous ownership table on all 16384 slots, and per-node partition counts max-min <= 1. " +
 			"Non-trivial = one (n,k) pair evaluated with k>1 (signature n,k). evaluations = (n,k) pairs + tags + FindTags probes. " +
@@ -144,7 +144,7 @@ func TestC35(t *testing.T) {
 		MinNontrivial: 1000,
 		// pure CPU-bound cases: the watchdog only has to catch a genuine hang, not CPU starvation on a loaded host
 		CaseTimeout:     20 * time.Minute,
-		RequireCounters: []string{"pairs_balanced", "tags_checked", "slot_to_node_slots_compared", "sizes_checked", "findtags_rejected"},
+		RequireCounters: []string{"held_tables_compared_after_later_lookups", "pairs_balanced", "tags_checked", "slot_to_node_slots_compared", "sizes_checked", "findtags_rejected"},
 		Run:             func(c *kit.Case) { run(c, us[c.Index]) },
 	})
 }
@@ -336,6 +336,44 @@ func runGlobal(c *kit.Case) {
 			c.Count("findtags_rejected", 1)
 		}
 	}
+	// A table a caller holds (the broker constructors keep the slice) must not change when other
+	// tables are looked up afterwards: look all sizes up in descending, ascending and interleaved
+	// order, holding every returned slice, and compare each held slice with the copy taken when it
+	// was returned.
+	type heldTable struct {
+		n    int
+		tags []string
+		copy []string
+	}
+	var held []heldTable
+	order := append([]int(nil), sizes...)
+	for i := len(sizes) - 1; i >= 0; i-- {
+		order = append(order, sizes[i])
+	}
+	for i := range sizes {
+		order = append(order, sizes[len(sizes)-1-i], sizes[i])
+	}
+	for _, n := range order {
+		tags, err := redispartition.FindTags(n)
+		if err != nil {
+			continue
+		}
+		held = append(held, heldTable{n: n, tags: tags, copy: append([]string(nil), tags...)})
+		for _, h := range held {
+			c.Eval(1)
+			if len(h.tags) != len(h.copy) {
+				c.Violation("held-tag-table-changed-by-later-lookup", fmt.Sprintf("the table returned by FindTags(%d) had %d tags and has %d after FindTags(%d)", h.n, len(h.copy), len(h.tags), n), nil)
+				return
+			}
+			for i := range h.copy {
+				if h.tags[i] != h.copy[i] {
+					c.Violation("held-tag-table-changed-by-later-lookup", fmt.Sprintf("the table returned by FindTags(%d) changed after a later FindTags(%d): tag #%d was %q and is %q now", h.n, n, i, h.copy[i], h.tags[i]), nil)
+					return
+				}
+			}
+		}
+	}
+	c.Count("held_tables_compared_after_later_lookups", len(held))
 	c.Nontrivial("global")
 	c.Sample(map[string]any{"precomputed_sizes": sizes, "crc16_123456789": fmt.Sprintf("%#x", crc16("123456789"))})
 }
